@@ -20,13 +20,13 @@ TARGETS = ["f1", "../x", "nowhere", "d1"]
 WEIGHTS = {
     "tree_path": 9, "new_file": 8, "new_directory": 8, "new_symlink": 3, "create_path": 3, "assign_id": 1,
     "delete_contents": 8, "cancel_deletion": 1, "adjust_path": 16, "version_file": 6, "cancel_versioning": 1,
-    "unversion_file": 6, "set_executability": 6, "create_file": 4, "create_directory": 4, "create_symlink": 2,
-    "cancel_creation": 2, "replace": 6, "delete_versioned": 3,
+    "unversion_file": 6, "set_executability": 9, "create_file": 4, "create_directory": 4, "create_symlink": 2,
+    "cancel_creation": 2, "replace": 6, "delete_versioned": 3, "chmod_tree_file": 5,
 }
 
 
 class Slot:
-    __slots__ = ("origin", "path", "named", "created", "new_id", "dead", "unversioned")
+    __slots__ = ("origin", "path", "named", "created", "new_id", "dead", "unversioned", "exec_set")
 
     def __init__(self, origin, path=None, named=True):
         self.origin = origin  # "tree" | "new"
@@ -36,13 +36,16 @@ class Slot:
         self.new_id = False  # version_file was called on it
         self.dead = False  # creating op raised: no trans id behind this slot
         self.unversioned = False  # unversion_file was called on it
+        self.exec_set = False  # set_executability was accepted for it
 
 
 class GenState:
     """What the generator knows about the tree and about the script so far."""
 
-    def __init__(self, tree_paths, tree_ids, use_ids, versioned_paths=()):
+    def __init__(self, tree_paths, tree_ids, use_ids, versioned_paths=(), tree_kinds=None, tree_exec=None):
+        self.tree_exec = dict(tree_exec or {})  # versioned file path -> current exec bit
         self.versioned_paths = set(versioned_paths) | {""}
+        self.tree_kinds = dict(tree_kinds or {})  # path -> kind on disk
         self.tree_paths = list(tree_paths)  # candidate existing paths (versioned, unversioned, missing, bogus)
         self.tree_ids = list(tree_ids)  # file ids present in the tree / basis (str)
         self.use_ids = use_ids
@@ -61,6 +64,14 @@ class GenState:
     def fresh_id(self):
         self.n_fresh += 1
         return "c14-new-%d" % self.n_fresh
+
+
+def _is_versioned_file(st, s):
+    if s.origin == "tree":
+        if s.created is not None:
+            return s.created == "file" and (s.new_id or (s.path in st.versioned_paths and not s.unversioned))
+        return st.tree_kinds.get(s.path) == "file" and ((s.path in st.versioned_paths and not s.unversioned) or s.new_id)
+    return s.created == "file" and s.new_id
 
 
 def _pick_parent(rng, st, exclude=None):
@@ -128,6 +139,19 @@ def _gen_kind(rng, st, k):
         if full:
             return None
         return {"op": "assign_id"}
+    if k == "chmod_tree_file":
+        # the plainest exec-only change: flip the bit of a versioned file that gets nothing else
+        slot_of = {s.path: i for i, s in enumerate(st.slots) if s.origin == "tree" and not s.dead}
+        cands = [q for q in sorted(st.tree_exec) if q not in slot_of or not (st.slots[slot_of[q]].exec_set or st.slots[slot_of[q]].unversioned
+                                                                               or st.slots[slot_of[q]].created)]
+        if not cands:
+            return None
+        q = rng.choice(cands)
+        if q in slot_of:
+            return {"op": "set_executability", "slot": slot_of[q], "value": not st.tree_exec[q]}
+        if full:
+            return None
+        return {"op": "tree_path_exec", "path": q, "value": not st.tree_exec[q]}
     if not live:
         return None
     i = rng.choice(live)
@@ -159,6 +183,15 @@ def _gen_kind(rng, st, k):
     if k == "delete_versioned":
         return {"op": k, "slot": i}
     if k == "set_executability":
+        if not hostile:
+            # sensible use: a file that is (or is being) versioned; the other uses are conflicts without a resolver and would
+            # turn most scripts into plain MalformedTransform cases
+            good = [j for j in live if _is_versioned_file(st, st.slots[j])]
+            if not good:
+                return None
+            only = [j for j in good if st.slots[j].origin == "tree" and st.slots[j].created is None]
+            i = rng.choice(only if only and rng.random() < 0.6 else good)  # exec-only change of an existing file preferred
+            return {"op": k, "slot": i, "value": rng.choice([True, False])}
         return {"op": k, "slot": i, "value": rng.choice([True, False, True, False, None])}
     if k in ("create_file", "create_directory", "create_symlink", "replace", "cancel_creation") and s.origin == "tree" and s.path == "":
         return None  # the tree root stays a directory: new contents for it are outside the property's input class
@@ -194,9 +227,10 @@ def _gen_kind(rng, st, k):
 def note_op(st, op, ok):
     """Update the generator bookkeeping after op was executed on the primary transform (ok = it did not raise)."""
     k = op["op"]
-    if k == "tree_path":
+    if k in ("tree_path", "tree_path_exec"):
         s = Slot("tree", op["path"], named=True)
         s.dead = not ok
+        s.exec_set = ok and k == "tree_path_exec"
         st.slots.append(s)
         return
     if k in ("new_file", "new_directory", "new_symlink", "create_path", "assign_id"):
@@ -236,6 +270,8 @@ def note_op(st, op, ok):
         s.created = op["kind"]
     elif k == "cancel_creation" and ok:
         s.created = None
+    elif k == "set_executability" and ok:
+        s.exec_set = op["value"] is not None
 
 
 def _fid(op_fid, git):
@@ -263,6 +299,11 @@ def execute(tt, ids, op, git):
     if k == "tree_path":
         ids.append(None)
         ids[-1] = tt.trans_id_tree_path(op["path"])
+    elif k == "tree_path_exec":
+        ids.append(None)
+        t = tt.trans_id_tree_path(op["path"])
+        tt.set_executability(op["value"], t)
+        ids[-1] = t
     elif k == "assign_id":
         ids.append(None)
         ids[-1] = tt.assign_id()
